@@ -9,11 +9,14 @@
 //!       (reparse (ok (listing I…) EQ) | (err))   P'.to_instructions(), P' == P
 //!       (print2 (ok TOK…) | (err KIND) | (none)) lex_tokens(text2)
 //!       (texteq BOOL)                            text2 == text1 (bytes)
-//!       (debug TOK…))                            lex_tokens(P.to_quil_or_debug())
+//!       (debug TOK…)                             lex_tokens(P.to_quil_or_debug())
+//!       (siblings (NAME BOOL)…))                 the other public routes agree with the ones above (see `siblings`)
+//! A rejected text has its error formatted (`{}`, `{:#}`, `{:?}`, source chain) under catch_unwind.
 //! The Lean driver recomputes everything from the text with the lexer / parser / program / printer models.
 use qvh::ast::Enc;
 use qvh::lexwire::token_sexp;
 use qvh::*;
+use quil_rs::instruction::Instruction;
 use quil_rs::quil::{Quil, ToQuilError};
 use quil_rs::verif_hooks;
 use quil_rs::Program;
@@ -49,7 +52,17 @@ fn listing(p: &Program) -> Sexp {
 fn run_text(text: &str) -> Sexp {
     let p = match Program::from_str(text) {
         Ok(p) => p,
-        Err(_) => return tagged("rejected", vec![]),
+        Err(e) => {
+            // every returned error is formatted: a panic here is a crash outcome
+            let mut n = format!("{e}").len() + format!("{e:#}").len() + format!("{e:?}").len();
+            let mut src: Option<&dyn std::error::Error> = std::error::Error::source(&e);
+            while let Some(x) = src {
+                n += x.to_string().len();
+                src = x.source();
+            }
+            std::hint::black_box(n);
+            return tagged("rejected", vec![]);
+        }
     };
     let debug = {
         let mut v = vec![atom("debug")];
@@ -80,7 +93,93 @@ fn run_text(text: &str) -> Sexp {
             }
         },
     };
-    tagged("ok", vec![listing(&p), print1, reparse, print2, tagged("texteq", vec![boolean(texteq)]), debug])
+    let sib = siblings(&p, text1.as_deref());
+    tagged("ok", vec![listing(&p), print1, reparse, print2, tagged("texteq", vec![boolean(texteq)]), debug, sib])
+}
+
+/// The other public print / parse / build routes, compared with the main ones (all must be `true`):
+///   instr-concat   text1 == Σ instruction.to_quil() + "\n" over to_instructions()
+///   debug-eq       to_quil_or_debug() == text1 (a parsed program has no placeholders)
+///   twice          a second to_quil() gives the same text
+///   into-eq-to     clone().into_instructions() == to_instructions()
+///   rebuilt-text   Program::from_instructions(to_instructions()).to_quil() == text1
+///   add-loop       add_instruction one at a time == from_instructions, same text
+///   from-vec       Program::from(vec) == from_instructions(vec)
+///   plus           (P + empty) and (empty + P) print text1; P + P prints what from_instructions(l ++ l) prints
+///   instr-from-str every listed instruction: Instruction::from_str(i.to_quil()) re-prints the same text and == i
+///   trip3          from_str(text2): == P', and its text3 == text2 (idempotence beyond one step)
+///   instrs-eq-prog parsing the text and listing it == from_instructions route (P' vs rebuilt)
+fn siblings(p: &Program, text1: Option<&str>) -> Sexp {
+    let mut v: Vec<Sexp> = vec![atom("siblings")];
+    let mut put = |name: &str, b: bool| v.push(list(vec![atom(name), boolean(b)]));
+    let Some(t1) = text1 else {
+        return list(v);
+    };
+    let l = p.to_instructions();
+    let mut concat = String::new();
+    let mut all_ok = true;
+    for i in &l {
+        match i.to_quil() {
+            Ok(t) => {
+                concat.push_str(&t);
+                concat.push('\n');
+            }
+            Err(_) => all_ok = false,
+        }
+    }
+    put("instr-concat", all_ok && concat == t1);
+    put("debug-eq", p.to_quil_or_debug() == t1);
+    put("twice", p.to_quil().map(|t| t == t1).unwrap_or(false));
+    put("into-eq-to", p.clone().into_instructions() == l);
+    let rebuilt = Program::from_instructions(l.clone());
+    put("rebuilt-text", rebuilt.to_quil().map(|t| t == t1).unwrap_or(false));
+    let mut looped = Program::new();
+    for i in &l {
+        looped.add_instruction(i.clone());
+    }
+    put("add-loop", looped == rebuilt && looped.to_quil().map(|t| t == t1).unwrap_or(false));
+    let mut bulk = Program::new();
+    bulk.add_instructions(l.clone());
+    put("add-bulk", bulk == rebuilt);
+    put("from-vec", Program::from(l.clone()) == rebuilt);
+    let plus_r = p.clone() + Program::new();
+    let plus_l = Program::new() + p.clone();
+    let mut twice_l = l.clone();
+    twice_l.extend(l.clone());
+    let pp = rebuilt.clone() + rebuilt.clone();
+    put(
+        "plus",
+        plus_r.to_quil().map(|t| t == t1).unwrap_or(false)
+            && plus_l.to_quil().map(|t| t == t1).unwrap_or(false)
+            && pp.to_quil().ok() == Program::from_instructions(twice_l).to_quil().ok(),
+    );
+    let mut ifs = true;
+    for i in &l {
+        if let Ok(t) = i.to_quil() {
+            match Instruction::from_str(&t) {
+                Ok(j) => {
+                    if j.to_quil().ok().as_deref() != Some(t.as_str()) || &j != i {
+                        ifs = false;
+                    }
+                }
+                Err(e) => {
+                    std::hint::black_box(format!("{e} {e:?}").len());
+                    ifs = false;
+                }
+            }
+        }
+    }
+    put("instr-from-str", ifs);
+    if let Ok(p2) = Program::from_str(t1) {
+        put("instrs-eq-prog", p2 == rebuilt);
+        if let Ok(t2) = p2.to_quil() {
+            match Program::from_str(&t2) {
+                Ok(p3) => put("trip3", p3 == p2 && p3.to_quil().map(|t3| t3 == t2).unwrap_or(false)),
+                Err(_) => put("trip3", false),
+            }
+        }
+    }
+    list(v)
 }
 
 fn text_case(ctx: &mut Ctx, stream: &str, text: &str) {
@@ -256,6 +355,20 @@ const CORPUS: &[&str] = &[
     "CALL e -1e300-0i i",
     "CALL f 1i i",
     "CALL f x i 1",
+    // empty and singleton lists wherever the grammar allows them
+    "PULSE 0 \"rf\" w()\nCAPTURE 0 \"rf\" w() ro",
+    "FOO()\nFOO() 0\nDEFCAL FOO():\n    NOP",
+    "DEFGATE G():\n    1\nDEFCIRCUIT C():\n    NOP\nDEFWAVEFORM w():\n    1",
+    "DEFGATE G AS PERMUTATION:\n    0\nDEFGATE S a AS SEQUENCE:\n    X a\nDEFGATE P a AS PAULI-SUM:\n    X(1) a",
+    "PRAGMA EXTERN f \"INTEGER ()\"\nPRAGMA EXTERN g \"()\"\nPRAGMA EXTERN h \"\"",
+    "DECLARE x BIT[0]\nDECLARE y REAL SHARING x OFFSET 0 BIT",
+    // a circuit and a LATER gate definition with the same name (seed C02-1), and other cross-kind name sharing
+    "DEFCIRCUIT BELL a b:\n    H a\n    CNOT a b\nDEFGATE BELL AS PERMUTATION:\n    0, 1, 3, 2\nBELL 0 1",
+    "DEFGATE BELL AS PERMUTATION:\n    0, 1\nDEFCIRCUIT BELL a:\n    H a\nDEFWAVEFORM BELL:\n    1\nDECLARE BELL BIT\nDEFCAL BELL 0:\n    NOP\nPRAGMA EXTERN BELL \"INTEGER\"\nLABEL @BELL\nDEFFRAME 0 \"BELL\":\n    A: 1",
+    // PAULI-SUM terms whose arguments are not in signature order (seed C02-2)
+    "DEFGATE PS(%t) a b c AS PAULI-SUM:\n    ZXY(%t) c a b\n    XX(1) b a\n    Y(2) c",
+    // strings with control characters and newlines in every body kind
+    "DEFCAL X 0:\n    PRAGMA x \"a\tb\"\n    DELAY 0 \"a\nb\" 1\nDEFCAL MEASURE 0:\n    PULSE 0 \"a\nb\" w\n    INCLUDE \"x\ry\"\nDEFCIRCUIT C:\n    DELAY 0 \"\u{1}\" \"\u{7f}\" 1\n    SET-PHASE 0 \"a\n\tb\" 1",
     // ordering of definitions and body
     "X 0\nDECLARE ro BIT\nDEFGATE A:\n    1\nMEASURE 0 ro\nDEFFRAME 0 \"f\":\n    A: 1\nDEFWAVEFORM w:\n    1\nDEFCAL X 0:\n    NOP\nDEFCAL MEASURE 0:\n    NOP\nDEFCIRCUIT C:\n    NOP\nPRAGMA EXTERN f \"INTEGER\"\nY 1",
     // lexical variety
@@ -270,8 +383,15 @@ const CORPUS: &[&str] = &[
 const NAMES: &[&str] = &[
     "a", "b", "q", "ro", "theta", "x_1", "foo-bar", "G", "RX", "CNOT", "i", "pi", "sin", "I", "X", "ab_", "_u",
     "H2", "DAGGERX", "a-b-c", "Theta", "e", "E1", "cis", "SQRT", "w", "iq", "inf", "NaN", "PH",
+    // reserved words / template names / gate names / constants in other letter cases: identifiers to the lexer
+    "dagger", "Dagger", "matrix", "As", "sharing", "Offset", "pauli-sum", "defgate", "measure", "Mut", "nonblocking",
+    "flat", "gaussian", "drag_gaussian", "erf_square", "hrm_gaussian", "boxcar_kernel", "FLAT", "Gaussian",
+    "h", "Rx", "cnot", "PI", "Pi", "SIN", "Sqrt", "CIS", "Exp", "EXTERN", "extern", "bit", "Real", "octet",
 ];
-const STRINGS: &[&str] = &["rf", "ro", "xy", "a b", "a\\\"b", "a\\\\b", "", "#x", "q0_rf", "é", ";"];
+const STRINGS: &[&str] = &[
+    "rf", "ro", "xy", "a b", "a\\\"b", "a\\\\b", "", "#x", "q0_rf", "é", ";", "a\nb", "\t", "a\rb", "\u{1}", "\u{7f}",
+    "\u{1b}[0m", "    ", "\n", "x\n    y", "DEFGATE", "\u{85}",
+];
 
 struct G<'a> {
     r: &'a mut Rng,
@@ -301,6 +421,13 @@ impl G<'_> {
             5 => "18446744073709551615".into(),
             6 => "9223372036854775807".into(),
             7 => "9223372036854775808".into(),
+            8 => self
+                .r
+                .pick(&[
+                    "2147483647", "2147483648", "4294967295", "4294967296", "9007199254740992", "9007199254740993",
+                    "999999999999999", "1000000000000000", "10000000000000000", "18446744073709551614", "1", "32", "64",
+                ])
+                .to_string(),
             _ => self.r.below(12).to_string(),
         }
     }
@@ -318,6 +445,12 @@ impl G<'_> {
             "1e15", "1e14", "999999999999999.0", "1e16", "123456789012345678.0", "1e-5", "1e-6", "0.00001",
             "0.000001", "1.7976931348623157e308", "2.2250738585072014e-308", "4.9e-324", "1_0.2_5", "6.02e23",
             "100.0", "1e0", "12345.678", "0.30000000000000004", "1e21", "1e22", "1e23",
+            // band boundaries of the number printers / the lexer
+            "9.999999999999999e-6", "0.00001", "0.000009", "1e-4", "99999999999999.0", "999999999999999.9",
+            "1000000000000000.0", "9999999999999998.0", "9007199254740992.0", "9007199254740993.0",
+            "9223372036854775808.0", "18446744073709551615.0", "18446744073709551616.0", "1.8446744073709552e19",
+            "1e19", "9.9e19", "1e20", "99999999999999999999.0", "1.0000000000000002", "2.2250738585072009e-308",
+            "1e-323", "4294967296.0", "2147483648.0", "0.1e1", "00.5", "1_000.000_1",
         ];
         if self.r.chance(1, 5) {
             let m = self.r.below(1 << 20) as f64 / 1024.0;
@@ -706,6 +839,83 @@ impl G<'_> {
     }
 }
 
+/// definitions and uses that SHARE names across kinds (gate / circuit / waveform / region / extern / frame / label /
+/// calibration), in random order with repeats
+fn shared_names_program(rng: &mut Rng) -> String {
+    const POOL: &[&str] = &["X", "BELL", "w", "ro"];
+    let n = 3 + rng.below(8);
+    let mut s = String::new();
+    for _ in 0..n {
+        let a = *rng.pick(POOL);
+        let b = *rng.pick(POOL);
+        let item = match rng.below(20) {
+            0 => format!("DEFGATE {a} AS PERMUTATION:\n    0, 1"),
+            1 => format!("DEFGATE {a}:\n    1, 0\n    0, 1"),
+            2 => format!("DEFGATE {a}(%{b}) q AS SEQUENCE:\n    {b}(%{b}) q"),
+            3 => format!("DEFCIRCUIT {a} q:\n    {b} q"),
+            4 => format!("DEFCIRCUIT {a}(%{b}) {b}:\n    {a}(%{b}) {b}"),
+            5 => format!("DEFWAVEFORM {a}:\n    1, 2"),
+            6 => format!("DEFWAVEFORM {a}(%{b}):\n    %{b}"),
+            7 => format!("DECLARE {a} BIT[2]"),
+            8 => format!("DECLARE {a} REAL[1] SHARING {b} OFFSET 1 BIT"),
+            9 => format!("PRAGMA EXTERN {a} \"INTEGER ({b} : INTEGER)\""),
+            10 => format!("DEFFRAME 0 \"{a}\":\n    {b}: \"{a}\""),
+            11 => format!("LABEL @{a}\nJUMP @{b}"),
+            12 => format!("DEFCAL {a} 0:\n    {b} 0"),
+            13 => format!("DEFCAL {a}(%{b}) {b}:\n    PULSE {b} \"{a}\" {a}({b}: %{b})"),
+            14 => format!("DEFCAL MEASURE 0 {a}:\n    CAPTURE 0 \"{b}\" {a} {a}"),
+            15 => format!("DEFCAL MEASURE {a} {b}:\n    MEASURE {a} {b}"),
+            16 => format!("{a} 0"),
+            17 => format!("CALL {a} {b} {b}[0] 1"),
+            18 => format!("PULSE 0 \"{a}\" {b}({a}: 1, {b}: 2)"),
+            _ => format!("MEASURE 0 {a}[0]\nJUMP-WHEN @{b} {a}[1]"),
+        };
+        s.push_str(&item);
+        s.push('\n');
+    }
+    s
+}
+
+/// collections of more than 32 / 64 elements wherever the grammar has a list
+fn large_programs(rng: &mut Rng) -> Vec<String> {
+    let mut out = Vec::new();
+    let perm = |rng: &mut Rng, n: usize| -> Vec<usize> {
+        let mut v: Vec<usize> = (0..n).collect();
+        for i in (1..n).rev() {
+            let j = rng.below(i as u64 + 1) as usize;
+            v.swap(i, j);
+        }
+        v
+    };
+    for &n in &[33usize, 40, 65, 70] {
+        let qs: String = (0..n).map(|k| format!(" {k}")).collect();
+        out.push(format!("G{qs}\nFENCE{qs}\nDELAY{qs} 1.5"));
+        let keys = perm(rng, n);
+        let ps: Vec<String> = keys.iter().map(|k| format!("k{k}: {k}")).collect();
+        out.push(format!("PULSE 0 \"rf\" w({})\nCAPTURE 0 \"rf\" v({}) ro", ps.join(", "), ps.join(", ")));
+        let ks2: Vec<String> = perm(rng, n).iter().map(|k| format!("p{}: {k}", k % 7 * 1000 + k)).collect();
+        out.push(format!("DEFCAL X 0:\n    PULSE 0 \"rf\" w({})", ks2.join(", ")));
+        let decls: String = perm(rng, n).iter().map(|k| format!("DECLARE r{} BIT[{k}]\n", k % 37)).collect();
+        out.push(decls);
+        let entries: Vec<String> = perm(rng, n).iter().map(|k| k.to_string()).collect();
+        out.push(format!("DEFGATE P AS PERMUTATION:\n    {}", entries.join(", ")));
+        let args: String = (0..n).map(|k| if k % 3 == 0 { format!(" a{k}") } else { format!(" {k}") }).collect();
+        out.push(format!("PRAGMA P{args} \"d\"\nCALL f{args}"));
+        let offs: String = (0..n).map(|k| format!(" {k} BIT")).collect();
+        out.push(format!("DECLARE x BIT[{n}] SHARING y OFFSET{offs}"));
+        let body: String = (0..n).map(|k| format!("\n    RX({k}) q")).collect();
+        out.push(format!("DEFCIRCUIT C q:{body}\nDEFCAL Y q:{body}\nDEFCAL MEASURE q:{body}"));
+        let attrs: String = perm(rng, n).iter().map(|k| format!("\n    A{k}: {k}")).collect();
+        out.push(format!("DEFFRAME 0 \"f\":{attrs}"));
+        let params: Vec<String> = (0..n).map(|k| format!("%p{k}")).collect();
+        let row: Vec<String> = (0..n.min(40)).map(|k| format!("%p{k}")).collect();
+        out.push(format!("DEFGATE M({}):\n    {}", params.join(", "), row.join(", ")));
+        let gates: String = perm(rng, n).iter().map(|k| format!("DEFGATE g{}:\n    {k}\n", k % 41)).collect();
+        out.push(gates);
+    }
+    out
+}
+
 /// one or two character- / word-level edits
 fn mutate(rng: &mut Rng, text: &str) -> String {
     let mut chars: Vec<char> = text.chars().collect();
@@ -810,6 +1020,17 @@ fn run(ctx: &mut Ctx) {
             accepted.push(text.clone());
         }
         text_case(ctx, "program", &text);
+    }
+    // 3b. definitions and uses sharing names across kinds; large collections
+    let n_shared = if ctx.quick() { 1500 } else { 60_000 };
+    let mut rng = ctx.rng(5);
+    for _ in 0..n_shared {
+        let text = shared_names_program(&mut rng);
+        text_case(ctx, "shared-names", &text);
+    }
+    let mut rng = ctx.rng(6);
+    for text in large_programs(&mut rng) {
+        text_case(ctx, "large", &text);
     }
     // 4. mutations of accepted texts (corpus included)
     let mut rng = ctx.rng(4);
